@@ -152,7 +152,7 @@ func cmdCheck(prop, tier string) int {
 		return fatal2("build from %s failed:\n%v", repoDir, err)
 	}
 	kf := loadKnown()
-	env := &check.Env{Bins: &world.Bins{Bin: bres.Bin, RaceBin: bres.RaceBin, Sources: bres.Sources}, Base: scratch, Known: kf.classifyAny, Prop: prop}
+	env := &check.Env{Bins: &world.Bins{Bin: bres.Bin, RaceBin: bres.RaceBin, TrimBin: bres.TrimBin, Sources: bres.Sources}, Base: scratch, Known: kf.classifyAny, Prop: prop}
 	fmt.Printf("simdrive: property %s tier %s seed %d: built world binaries from %s in %.1fs (%d import rewrites)\n", prop, tier, seed, repoDir, time.Since(start).Seconds(), bres.Rewrites)
 
 	agg := newAgg(prop, tier, seed)
@@ -538,7 +538,7 @@ func cmdReplay(path string) int {
 		return fatal2("build failed:\n%v", err)
 	}
 	kf := loadKnown()
-	env := &check.Env{Bins: &world.Bins{Bin: bres.Bin, RaceBin: bres.RaceBin, Sources: bres.Sources}, Base: scratch, Known: kf.classifyAny}
+	env := &check.Env{Bins: &world.Bins{Bin: bres.Bin, RaceBin: bres.RaceBin, TrimBin: bres.TrimBin, Sources: bres.Sources}, Base: scratch, Known: kf.classifyAny}
 	env.Keep = os.Getenv("VERIF_KEEP") != "" // debugging: keep the world root below the scratch directory
 	out := check.RunWorld(env, rf.World)
 	if out.Infra != "" {
